@@ -12,6 +12,7 @@ mod error;
 
 mod abe_policy;
 mod ae;
+mod bytes;
 mod core;
 mod data_struct;
 mod encrypted_header;
